@@ -351,6 +351,7 @@ def cmd_check(args):
                 "tier": "V" if has_body else "V(signature contract only: required trait method, assumed for every implementor)",
                 "token_hash": it["token_hash"],
                 "rules": it["rules"],
+                **({"decision_rule": "identity: a failed obligation is reported as a violation only with a discrepancy found by the probe of the real code against the closed form, otherwise undecided (DESIGN 4.1)"} if it.get("identity") else {}),
             })
             for k, v in it["rules"].items():
                 rules[k] = rules.get(k, 0) + v
@@ -486,6 +487,14 @@ def cmd_check(args):
         from vxlib import replay
         for v in real_violations:
             path, found = replay.make_replay(pid, v, tier)
+            if not found and (v.get("item") or {}).get("identity") and replay.LAST_PROBE_CASES > 0:
+                # `//@ opt identity`: the postcondition of this function is a closed-form identity over the reals (a wrong
+                # formula differs from the right one almost everywhere), and the probe of the real code against the closed
+                # form -- values, gradients, Hessians on its whole grid -- found no discrepancy.  A proof that no longer
+                # goes through after an algebraic rearrangement is solver incompleteness on nonlinear real arithmetic far more
+                # often than a defect: undecided, not a violation.  (With a discrepancy found it IS reported, with the input.)
+                undecided.append(f"{v['obligation']}: no longer proved ({v['kind']}) but the identity probe of the real code against the closed form found no discrepancy in {replay.LAST_PROBE_CASES} cases: re-prove by hand (replay file {path})")
+                continue
             vio_lines.append(f"VIOLATION property={pid} replay={path}" + ("" if found else " no-failing-input-found"))
 
     if not obligations and not bounded and not undecided:
@@ -519,14 +528,14 @@ def cmd_check(args):
         "coverage": coverage,
         "assumptions": conf.get("assumptions", []) + config.COMMON_ASSUMPTIONS,
         "wall_s": round(time.time() - t0, 2),
-        "violations": len(real_violations),
+        "violations": len(vio_lines),
     }
     with open(ev_path, "w") as f:
         json.dump(ev, f, indent=1)
 
     for k, v in known_hits:
         print(f"KNOWN-FINDING: property={pid} {k['what']} [{v['obligation']}]")
-    print(f"{pid} [{tier}] obligations={n_obl} discharged={n_dis} bounded={len(bounded)} violations={len(real_violations)} undecided={len(undecided)} wall={ev['wall_s']}s")
+    print(f"{pid} [{tier}] obligations={n_obl} discharged={n_dis} bounded={len(bounded)} violations={len(vio_lines)} undecided={len(undecided)} wall={ev['wall_s']}s")
     if vio_lines:
         for l in vio_lines:
             print(l)
